@@ -132,10 +132,23 @@ def absorb_engine(res: dict, eng) -> None:
 # parallel runner
 
 
+TASK_FNS: dict[str, Callable[[dict], dict]] = {}
+
+
+def task_fn(name: str):
+    def deco(fn):
+        TASK_FNS[name] = fn
+        return fn
+
+    return deco
+
+
 def _run_task(args):
     fn, task = args
     t0 = time.time()
     try:
+        if fn is None:
+            fn = TASK_FNS[task["fn"]]
         r = fn(task)
     except BaseException as e:  # noqa: BLE001
         r = new_result(str(task.get("unit", task)))
@@ -144,7 +157,7 @@ def _run_task(args):
     return r
 
 
-def run_units(fn: Callable[[dict], dict], tasks: list[dict], *, procs: int | None = None, init=None, initargs=(), progress: bool = True):
+def run_units(fn: Callable[[dict], dict] | None, tasks: list[dict], *, procs: int | None = None, init=None, initargs=(), progress: bool = True):
     procs = procs or int(os.environ.get("VERIF_PROCS", "0")) or min(16, os.cpu_count() or 4)
     results = []
     t0 = time.time()
